@@ -316,6 +316,34 @@ fn regroup(ts: TokenStream, idx: usize, grouping: u8) -> Option<TokenStream> {
     Some(toks[..start].iter().cloned().chain(new_value).chain(toks[end..].iter().cloned()).collect())
 }
 
+/// The item as syn's own `Meta` parser reads it in front of another item (what a macro author gets
+/// from `parse_args_with(Punctuated::<Meta, Token![,]>::parse_terminated)`): a negative number is
+/// then `-` applied to a literal, a shape darling's own list parser no longer hands on.
+pub fn build_meta_via_syn(item_text: &str, pos: usize) -> Option<Built> {
+    use syn::punctuated::Punctuated;
+    let (src, lo, idx, name) = match pos {
+        1 => (format!("{item_text}, zz = 1, yy"), 0usize, 0usize, "first (syn's reading)"),
+        _ => (format!("aa = 1, {item_text}, zz"), 8, 1, "middle (syn's reading)"),
+    };
+    let hi = lo + item_text.len();
+    let items = syn::parse::Parser::parse_str(Punctuated::<Meta, syn::Token![,]>::parse_terminated, &src).ok()?;
+    let meta = items.into_iter().nth(idx)?;
+    let value = match &meta {
+        Meta::NameValue(nv) => {
+            use syn::spanned::Spanned;
+            span_range(nv.value.span())
+        }
+        _ => None,
+    };
+    Some(Built {
+        meta,
+        item: (lo, hi),
+        value,
+        pos: name,
+        src,
+    })
+}
+
 pub fn build_meta_grouped(item_text: &str, pos: usize, grouping: u8) -> Option<Built> {
     let (src, lo, idx, name) = match pos {
         0 => (item_text.to_string(), 0usize, usize::MAX, "alone"),
@@ -543,6 +571,15 @@ fn one_case(ts: &[Target], item: &str, d: &Denotes, class: &str, pos: usize, c: 
     c.count(&format!("received.{}", received_class(&b.meta)));
     for t in ts {
         judge(t, &b, d, class, c);
+    }
+    // a negative number as syn's own list parser hands it on in front of another item
+    if matches!(d, Denotes::Int(_) | Denotes::Float(_)) && item.starts_with('-') {
+        if let Some(b) = build_meta_via_syn(&text, 1 + pos % 2) {
+            c.count(&format!("received-via-syn.{}", received_class(&b.meta)));
+            for t in ts {
+                judge(t, &b, d, class, c);
+            }
+        }
     }
     // the same number arriving as a macro fragment (`$v`, `-$v`, a fragment of a fragment): one of
     // the four groupings per case, chosen by the text
